@@ -146,6 +146,24 @@ def sec_kernels(rep):
         rep.check(f"C10/kernel/{name} = Mellin kernel of weight {w}", case, sy, pre, sides=True)
 
 
+def sec_lcov(rep):
+    """Lemma L-cov, kernel table: with u = xi/z (du = -xi dz/z^2) the integral int_xi^1 du w(u) F(u)
+    is the Mellin convolution int_xi^1 dz/z k(z) F(xi/z) with k(z) = (xi/z) w(xi/z); the four
+    kernels of spec.KERNEL_OF_WEIGHT are exactly that (only the substitution rule itself stays
+    assumed)."""
+    sy = H.Sy(extra="z xi")
+    pre = [sy.z > 0, sy.z < 1, sy.xi > 0, sy.xi < 1]
+    for w in spec.WEIGHT:
+        rep.cases += 1
+
+        def case(sy, w=w):
+            _, log = _fns(sy)
+            u = sy.xi / sy.z
+            return spec.KERNEL_OF_WEIGHT[w](sy.z, sy.xi, log), (sy.xi / sy.z) * spec.WEIGHT[w](u, sy.xi, log)
+
+        rep.check(f"C10/L-cov/kernel of weight {w} = (xi/z) w(xi/z)", case, sy, pre, kind="lemma")
+
+
 def sec_init(rep):
     from yadism.esf import tmc
 
@@ -358,13 +376,13 @@ def sec_selfcheck(rep, seed):
 def run(rep, tier, seed, only=None):
     rep.assume(
         "spec/tmc.py typed from Schienbein et al. (exact + approximate), Bluemlein-Tkabladze / Accardi-Melnitchouk (g1), in yadism's stored conventions F2, FL, xF3, 2x g1",
-        "L-cov (change of variables u = xi/z relating the integrals to Mellin convolutions with the kernels) is hand-proved (DESIGN appendix), not machine-checked",
+        "L-cov: the kernel table k(z) = (xi/z) w(xi/z) is machine-checked (C10/L-cov/*); the substitution rule of integration itself is assumed",
         "APFEL mode is specified as 'exact with the nested integral dropped' (docs/theory/misc.rst)",
         "structure functions and convolution integrals are abstract (contracts of sf.get_esf and conv.convolution); eko basis support is a 4-node stub",
         "sqrt atom carries rho^2 = 1 + 4 x^2 M2/Q2; continuity at M=0 from definedness of all coefficients for M2 >= 0",
     )
     rep.stub("sf.StructureFunction -> SFStub (abstract structure functions)", "conv.convolution -> abstract I[weight](j), weight decided semantically from the kernel passed", "eko interpolator -> 4-node stub")
-    for nm, f in (("kernels", sec_kernels), ("init", sec_init), ("formulas", sec_formulas), ("dispatch", sec_dispatch), ("convolve", sec_convolve), ("limit", sec_limit)):
+    for nm, f in (("kernels", sec_kernels), ("lcov", sec_lcov), ("init", sec_init), ("formulas", sec_formulas), ("dispatch", sec_dispatch), ("convolve", sec_convolve), ("limit", sec_limit)):
         if only and only not in nm:
             continue
         rep.add(guarded(f"C10/{nm}", lambda f=f: (f(rep), [])[1]))
